@@ -179,6 +179,15 @@ func (e *Exec) run(cmds []*Cmd, out *bufio.Writer) {
 			i = j + 1
 			continue
 		}
+		if c.Op == "buildfaults" || c.Op == "mergeengfaults" {
+			fmt.Fprintln(out, "note expanded: "+c.Raw)
+			if obs, ok := e.safeExec(c, e.sl, ""); ok {
+				fmt.Fprintln(out, obs)
+			}
+			out.Flush()
+			i++
+			continue
+		}
 		fmt.Fprintln(out, c.Raw)
 		if obs, ok := e.safeExec(c, e.sl, ""); ok {
 			fmt.Fprintln(out, "r "+obs)
@@ -532,6 +541,9 @@ func (e *Exec) doMerge(c *Cmd, gsuffix string) string {
 		e.vecArmFault(parts[0], n)
 		call()
 		extra = " " + e.vecAfterFault()
+		if err == nil {
+			extra += " fired=0"
+		}
 	} else {
 		call()
 	}
